@@ -109,6 +109,14 @@ class Cmp(object):
 
 vcmp = np.vectorize(Cmp)
 
+def _has_nan(value):
+    if isinstance(value, (list, tuple)):
+        for v in value:
+            if _has_nan(v):
+                return True
+        return False
+    return isinstance(value, (float, np.floating)) and np.isnan(value)
+
 def sort(iterable):
     """
     implements sorting allowing for comparing of not-same-type objects
@@ -131,10 +139,13 @@ def sort(iterable):
     >>> sort([1,3,2,None]) == [None, 1, 2, 3]
 
     """
+    values = list(iterable)
+    if _has_nan(values): ## native sort does not raise on nan, it silently mis-orders them
+        return sorted(values, key = Cmp)
     try:
-        return sorted(iterable)
+        return sorted(values)
     except TypeError:
-        return sorted(iterable, key = Cmp)
+        return sorted(values, key = Cmp)
 
 
 # def _type(x):
